@@ -44,15 +44,29 @@ Proved here (every grid, agent mix, overlap table, attack mapping, tape, history
   position returns a dict whose only channel is `position_centered_encoding`, inside the declared space (transported
   from the `WInv` theorem through `RT.heal`, Lemmas/ReachObs.lean: the observer never reads health).
 
-* **C02, actions** `reach_step_noRaise_WInv`, `reach_first_step_noRaise`: a `step` whose items are points of the declared
-  action spaces of learning agents does not raise when it starts in a `WInv` world — in particular the first step of every
-  episode (the situation of R1), whatever the object went through before.
+* **C02, actions** `reach_stepMustNotRaise_returns`: for EVERY world, reward dict, action dict and tape, if the judge's Boolean
+  `RT.stepMustNotRaise` holds (a `WInvWeak` world, items in the declared action spaces of learning agents, a full reward dict)
+  `step` returns — no `WInv`.  `reach_step_noRaise`: hence in every state reached by any history of resets, steps (ANY action
+  dicts) and getter calls; `reach_simIface_step_returns`: and in every state the managers reach through the `SimIface` instance
+  (its totalisation is never used).  The lemma that was missing: `RT.processAttack_ok_weak` (Lemmas/ReachHeal.lean) —
+  `process_action` of EVERY attack actor returns for an in-space action in a `WInvWeak` world: `RT.processAttack_heal` shows
+  that the call commutes with `RT.heal` for every world, attacker, action, tape (`_determine_attack` never reads health, the
+  health loop reads the health of ACTIVE victims only, a victim that dies ends with health exactly 0), and `attackOK_all`
+  applies to `heal w`.  `reach_step_noRaise_WInv`, `reach_first_step_noRaise` (steps that start in a `WInv` world, the
+  situation of R1) are kept as special cases.
 
-NOT proved (runtime only, judged on the implementation's trace by `RT.specRT`): the no-raise statement for steps that
-start in a world that is only `WInvWeak` (after a runner was taken off the grid by hand): missing is that
-`SelectiveAttackActor.process_action` RETURNS for an in-space action in such a world (`attackOK_all` is for `WInv`); the model's own
-trace satisfies `RT.specRT` (`examples_hist` for this class); that stored positions of inactive agents stay inside the grid
-(a hypothesis of `reach_observations_in_space` for inactive agents).
+* **C03 / C02, positions** `reach_inactive_positions_in_grid`: in every reachable state the stored position of EVERY agent —
+  active, dead or deactivated by hand — is a grid cell; so `reach_observations_in_space_all`: the observation of every agent
+  lies in the declared space (`reach_observations_in_space` without its hypothesis on the agent).
+
+* **the judge** `reach_hist`: under `RT.rtPre` the model's own trace satisfies `RT.specRT` for every history and all tapes
+  (the `examples_hist` of this class; steps are arbitrary).
+
+* **getters** `reach_getters_total`: in every reachable state `get_reward` of a learning agent, `get_done` of an agent of the
+  simulation and `get_all_done` return.
+
+Nothing of DESIGN.md 11.2 "Not proved" is left open for this class (the tie to the real code stays differential: model =
+implementation call by call, and the judge on the implementation's trace).
 -/
 namespace Abmarl
 open World
@@ -557,10 +571,9 @@ order) — then `step` returns, for every tape.  `WInv` holds after every `reset
 target; the attack loop runs first and preserves it, so the library's `attackOK_all` applies to every attack of the step;
 the move loop (with the hand-written removal) and the entropy loop only need `WInvWeak`.
 
-**What is missing for every reachable state** (`WInvWeak` only, once a runner was taken off the grid by hand): that
-`SelectiveAttackActor.process_action` RETURNS for an in-space action in a `WInvWeak` world — `attackOK_all`
-(Props/C11.lean) is proved for `WInv` worlds; that its result keeps `WInvWeak` is proved (`RT.processAttack_weak`).  At run
-time the judge's `RT.stepMustNotRaise` (no such restriction) is evaluated on every step of the streams. -/
+**For every reachable state** (`WInvWeak` only, once a runner was taken off the grid by hand) see `reach_step_noRaise` /
+`reach_stepMustNotRaise_returns` below: `process_action` of the attack actors returns in `WInvWeak` worlds too
+(`RT.processAttack_ok_weak`); this theorem is kept as the special case it was. -/
 theorem reach_step_noRaise_WInv (cfg : RT.Cfg) (w0 : World) (hcfg : CfgOK w0) (s : Ex.St) (r : Ex.Ledger)
     (hr : s.rewards = some r) (hI : s.w.WInv = true) (hF : SFrame w0 s.w) (hL : Ex.LedgerFull cfg.toEx w0.n r)
     (acts : List (Aid × Ex.Act)) (hS : ∀ x ∈ acts, Ex.ItemOK cfg.toEx w0 x) :
